@@ -24,6 +24,7 @@ CHECKS={
 "C03":("ddsim","5/C03","deterministic simulation: freeze-the-network-and-read soundness oracle at every successful wait_for_acknowledgments, bounded completion after heal incl. reader deletion / participant crash / deletion"),
 "C04":("ddsim","5/C04","deterministic simulation: late joiners at seeded instants vs writes, retained-history model, wait_for_historical_data freeze-and-read, VOLATILE readers judged against reader creation time"),
 "C05":("ddsim","5/C05","deterministic simulation: fragment-size and payload-size sweep with scripted/probabilistic fragment loss, dup and reorder; byte-identity and completion oracle"),
+"C06":("ddsim","5/C06","deterministic simulation: hostile datagrams (bit/field mutations of captured traffic, crafted well-formed messages with extreme fields and forged source, next-sequence-number re-sends with mutated payloads, random bytes) injected into a live two-participant system; oracle: no task/API panic, no process death or CPU-time hang, worker heap growth bounded by bytes received (counting allocator), API answers and fresh endpoints communicate with a newly joined participant afterwards"),
 "C15":("ddsim","5/C15","deterministic simulation: boundary-biased QoS configurations x creation order x SEDP faults; DDS RxO table + partition (fnmatch) model judged from both sides at quiescence; incompatibility reports via listeners"),
 "C16":("ddsim","5/C16","deterministic simulation: histories of remote endpoint create/delete/QoS change, participant crash (lease expiry) and deletion; matched-set model at quiescent points; wire silence towards departed readers"),
 "C17":("ddsim","5/C17","deterministic simulation: SPDP loss, domain id/tag mixes on a shared medium, scripted foreign participants with seeded leases falling silent, ignore_participant; discovery timeline polled every 5 ms against lease windows"),
